@@ -95,7 +95,8 @@ class C19(Property):
             "a few free-running runs on a real multiprocessing RawArray+Lock, OpenmlSource.read (data-id and task-id sources, also downloaded through a "
             "fake HttpSource, and 4-7 threads really waiting on a 1-3 permit semaphore) against an instrumented 3-permit "
             "openml_semaphore with the fake data set cached before / by a peer during acquire() / served on demand and full, abandoned and raising "
-            "reads (permits and cacher locks must be back afterwards), a key->slot probe across interpreters with different PYTHONHASHSEED, and reader-depth probes (127-400 simultaneous read locks on one "
+            "reads (permits and cacher locks must be back afterwards), the CobaMultiprocessor glue (for MemoryCacher / DiskCacher / NullCacher and user subclasses: what the workers get as cacher, two workers "
+            "missing one key at once; OpenmlSource objects read, then pickled / deep-copied to a process with another CobaContext.cacher), a key->slot probe across interpreters with different PYTHONHASHSEED, and reader-depth probes (127-400 simultaneous read locks on one "
             "slot of the lock table built by CobaMultiprocessor, by nesting or by threads at a barrier). non-trivial = a scheduled run in which at least "
             "two threads operated on one index and a write lock was taken, or a disk case with a cut strictly inside the entry")
     trusted_base = [
@@ -260,6 +261,14 @@ class C19(Property):
             return {"kind": "openml", "threads": True, "n": rng.randint(4, 7), "permits": rng.choice([1, 2, 3, 3]), "task": rng.chance(0.4)}
         return {"kind": "openml", "reads": reads, "concurrent": rng.chance(0.6), "semaphore": not rng.chance(0.1), "permits": 3}
 
+    GLUE_KINDS = ["MemoryCacher", "SharedMem", "DiskCacher", "UserDisk", "NullCacher", "UserNull"]
+
+    def gen_glue_case(self, rng, tier):
+        if rng.chance(0.5):
+            return {"kind": "glue", "what": "wrap", "cacher": rng.choice(self.GLUE_KINDS)}
+        return {"kind": "glue", "what": "source-copy", "copy": rng.choice(["pickle", "deepcopy"]), "first_read": rng.chance(0.8),
+                "bad": rng.choice([None, None, "badfeat", "deactivated"])}
+
     def gen_depth_case(self, rng, tier):
         if rng.chance(0.7):
             return {"kind": "depth", "variant": "nest", "n": rng.choice([127, 128, 129, 130, 200, 255, 256, 257, 300, 400])}
@@ -272,6 +281,8 @@ class C19(Property):
                                               for _ in range(rng.randint(1, 6))], "hashseeds": [rng.randint(1, 1000)]}
         if r < 4:
             return self.gen_depth_case(rng, tier)
+        if r < 8:
+            return self.gen_glue_case(rng, tier)
         if r < 23:
             return self.gen_openml_case(rng, tier)
         if r < 120:
@@ -356,6 +367,13 @@ class C19(Property):
         cs.append({"kind": "openml", "threads": True, "n": 6, "permits": 3, "task": False})
         cs.append({"kind": "openml", "threads": True, "n": 5, "permits": 1, "task": True})
         cs.append({"kind": "openml", "reads": [{"order": "during", "mode": "full"}, {"order": "uncached", "mode": "partial"}], "concurrent": True, "semaphore": False, "permits": 3})
+        # the CobaMultiprocessor glue: every kind of context cacher must reach the workers wrapped; sources copied to workers
+        for kind in self.GLUE_KINDS:
+            cs.append({"kind": "glue", "what": "wrap", "cacher": kind})
+        for cp in ("pickle", "deepcopy"):
+            for first in (True, False):
+                for bad in (None, "badfeat"):
+                    cs.append({"kind": "glue", "what": "source-copy", "copy": cp, "first_read": first, "bad": bad})
         # more simultaneous readers of one slot than a signed byte can count, on the lock table the library allocates
         cs.append({"kind": "depth", "variant": "nest", "n": 200})
         cs.append({"kind": "depth", "variant": "nest", "n": 128})
@@ -408,6 +426,8 @@ class C19(Property):
             return self.eval_openml(case, driver)
         if kind == "index":
             return self.eval_index(case, driver)
+        if kind == "glue":
+            return self.eval_glue(case, driver)
         return self.eval_sched(case, driver)
 
     def eval_sched(self, case, driver):
@@ -680,6 +700,46 @@ class C19(Property):
                 fails.append(F("B", "getter for key #%s completed %d times with %d rmv calls" % (k, n_ok, o["rmv_calls"].get(k, 0)), "mp-single-flight"))
         return {"fails": fails, "nontrivial": False, "tags": tags, "impl": o, "model": None}
 
+    def eval_glue(self, case, driver):
+        fails = []
+        if case["what"] == "wrap":
+            o = R.run_glue_wrap(case)
+            tags = ["glue:wrap:" + case["cacher"]]
+            where = "CobaMultiprocessor with CobaContext.cacher = %s: the workers get a %s" % (case["cacher"], o.get("worker_type"))
+            if o.get("capture_error"):
+                fails.append(F("A", "CobaMultiprocessor.filter could not be run with the recorder pool (%s)" % o["capture_error"], "A:mp-wiring-failed"))
+            else:
+                if o["alive"]:
+                    fails.append(F("B", "%s; two workers asking for the same key: %d still waiting" % (where, o["alive"]), "glue-workers-wait-forever"))
+                elif o["caching"] and o["max_inside"] > 1:
+                    fails.append(F("B", "%s; two workers that missed the same key ran the getter AT THE SAME TIME (two writers populating one entry; "
+                                   "the shared cacher is not protected by the ConcurrentCacher locks)" % where, "glue-two-getters-at-once"))
+                elif o["caching"] and o["runs"] > 1:
+                    fails.append(F("B", "%s; the getter ran %d times for one key" % (where, o["runs"]), "glue-getter-ran-twice"))
+                if o.get("array_nonzero"):
+                    fails.append(F("B", "%s; locks remain %s" % (where, o["array_nonzero"]), "array-nonzero-after-exit"))
+                if not fails and not o["wrapped"]:
+                    fails.append(F("A", "%s, not a ConcurrentCacher around the context cacher" % where, "A:glue-not-wrapped"))
+            return {"fails": fails, "nontrivial": True, "tags": tags, "impl": o, "model": {"wrapped": True}}
+        o = R.run_glue_source(case)
+        tags = ["glue:source-copy:" + case["copy"], "glue:first-read:%s" % bool(case.get("first_read", True))]
+        where = "an OpenmlSource %s, %s to a worker whose CobaContext.cacher is another (Concurrent)Cacher, read there" % (
+            "read once in the main process" if case.get("first_read", True) else "created in the main process", {"pickle": "pickled", "deepcopy": "deep-copied"}[case["copy"]])
+        wc = o.get("worker_calls", {})
+        if o.get("outcome") is not None and wc.get("get_set", 0) == 0:
+            fails.append(F("B", "%s: the worker's cacher saw NO access (in=%d get_set=%d rmv=%d, outcome %s): the copy kept using the cacher of the process "
+                           "it came from, bypassing the worker's read/write locks" % (where, wc.get("in", 0), wc.get("get_set", 0), wc.get("rmv", 0), o.get("outcome")),
+                           "source-copy-bypasses-worker-cacher"))
+        elif case.get("bad") == "badfeat" and wc.get("rmv", 0) == 0:
+            fails.append(F("B", "%s (corrupt entry): _clear_cache did not go through the worker's cacher" % where, "source-copy-bypasses-worker-cacher"))
+        if any(o.get("main_calls_during_worker_read", {}).values()):
+            fails.append(F("B", "%s: the main process' cacher object was accessed %s" % (where, o["main_calls_during_worker_read"]), "source-copy-bypasses-worker-cacher"))
+        if o.get("array_nonzero") or o.get("locks_nonzero"):
+            fails.append(F("B", "%s: locks remain %s %s" % (where, o.get("array_nonzero"), o.get("locks_nonzero")), "array-nonzero-after-exit"))
+        if not case.get("bad") and o.get("outcome") != "ok":
+            fails.append(F("B", "%s: %s" % (where, o.get("outcome")), "openml-read-failed"))
+        return {"fails": fails, "nontrivial": bool(case.get("first_read", True)), "tags": tags, "impl": o, "model": None}
+
     def eval_index(self, case, driver):
         fails, tags = [], ["index-across-interpreters"]
         o = R.run_index(case)
@@ -831,7 +891,9 @@ class C19(Property):
             return ""
         if case.get("kind") == "openml" and case.get("threads"):
             case = dict(case, kind="openml_threads")
-        fn = {"openml_threads": "run_openml_threads", "sched": "run_sched", "disk": "run_disk", "mp": "run_mp", "depth": "run_depth", "openml": "run_openml", "index": "run_index"}[case.get("kind", "sched")]
+        if case.get("kind") == "glue":
+            case = dict(case, kind="glue_" + case["what"].replace("-", "_"))
+        fn = {"glue_wrap": "run_glue_wrap", "glue_source_copy": "run_glue_source", "openml_threads": "run_openml_threads", "sched": "run_sched", "disk": "run_disk", "mp": "run_mp", "depth": "run_depth", "openml": "run_openml", "index": "run_index"}[case.get("kind", "sched")]
         return ("# runs the case on the real coba cachers (threads under the baton scheduler of /verif/harness/props/c19_sched.py)\n"
                 "import sys, json; sys.path[:0]=[%r, '/verif/harness']\nfrom props.c19_run import %s\n"
                 "case = json.loads(%r)\nr = %s(case)\nprint(json.dumps({k: v for k, v in r.items() if k != 'events'}, indent=1, default=str))\n"
